@@ -650,15 +650,10 @@ class Performance(object):
         self.performedparts[index] = pp
 
     def __iter__(self) -> Iterator[PerformedPart]:
-        self.iter_idx = 0
-        return self
-
-    def __next__(self) -> PerformedPart:
-        if self.iter_idx == len(self.performedparts):
-            raise StopIteration
-        res = self[self.iter_idx]
-        self.iter_idx += 1
-        return res
+        # A new iterator for every call (the cursor is not stored on the
+        # performance), so that nested or interleaved iterations over the
+        # same performance are independent of each other.
+        return iter(self.performedparts)
 
     def __len__(self) -> int:
         """
